@@ -483,9 +483,21 @@ class FileStore(Store):
                     raise KeyNotFoundStoreException(key=key, store=self)
         return self.finalize_metadata(metadata, key=key, is_dir=False)
 
+    def _write_file(self, path, tmp_path, data):
+        """Write a file via a temporary file (kept in the metadata folder) and a rename,
+        so that a crash leaves either the previous content or the complete new one."""
+        with open(tmp_path, "wb") as f:
+            f.write(data)
+        os.replace(tmp_path, path)
+
     def store(self, key, data, metadata):
-        self.path_for_key(key).parent.mkdir(parents=True, exist_ok=True)
-        self.path_for_key(key).write_bytes(data)
+        path = self.path_for_key(key)
+        metadata_path = self.metadata_path_for_key(key)
+        path.parent.mkdir(parents=True, exist_ok=True)
+        metadata_path.parent.mkdir(parents=True, exist_ok=True)
+        # drop the metadata of the previous data first, so that it can never describe the new data
+        metadata_path.unlink(missing_ok=True)
+        self._write_file(path, metadata_path.parent / (path.name + ".data.tmp"), data)
         self.store_metadata(
             key, self.finalize_metadata(metadata, key=key, is_dir=False, data=data)
         )
@@ -493,12 +505,16 @@ class FileStore(Store):
         self.on_metadata_changed(key)
 
     def store_metadata(self, key, metadata):
-        self.metadata_path_for_key(key).parent.mkdir(parents=True, exist_ok=True)
+        metadata_path = self.metadata_path_for_key(key)
+        metadata_path.parent.mkdir(parents=True, exist_ok=True)
         metadata = self.finalize_metadata(
             metadata, key=key, is_dir=self.is_dir(key), update=True
         )
-        with open(self.metadata_path_for_key(key), "w") as f:
-            json.dump(metadata, f)
+        self._write_file(
+            metadata_path,
+            metadata_path.parent / (metadata_path.name + ".tmp"),
+            json.dumps(metadata).encode("utf-8"),
+        )
         self.on_metadata_changed(key)
 
     def remove(self, key):
